@@ -199,3 +199,19 @@ def run(ctx: Ctx) -> None:
     ctx.ob("C07-2", "G5", None, "package-wide `now - x` scan", True, f"{n_sites} Event construction sites classified: {hist}", relpath="happysimulator/")
     ctx.floor("C07-1", 10)
     ctx.floor("C07-3", 5)
+
+
+MQ_ = "happysimulator/components/messaging/message_queue.py"
+GC_ = "happysimulator/components/infrastructure/garbage_collector.py"
+CAN_ = "happysimulator/components/deployment/canary_deployer.py"
+MUTANTS = [
+    ("delivery-stamped-before-latency", MQ_, "        delivery_event = Event(\n            time=self._clock.now if self._clock else Instant.Epoch,\n            event_type=\"message_delivery\",", "        delivery_event = Event(\n            time=now,\n            event_type=\"message_delivery\",", "C07-1"),
+    ("gc-next-collection-built-before-pause", GC_, "            pause = self._do_collect()\n            yield pause\n            return [self._schedule_next()]", "            pause = self._do_collect()\n            next_collection = self._schedule_next()\n            yield pause\n            return [next_collection]", "C07-1"),
+    ("canary-wait-can-be-zero", CAN_, "        # Continue evaluating\n        return [\n            Event(\n                time=self.now + Duration.from_seconds(self._evaluation_interval),", "        wait = min(self._evaluation_interval, stage.evaluation_period - elapsed)\n        return [\n            Event(\n                time=self.now + Duration.from_seconds(wait),", "C07-4"),
+    ("redelivery-from-stored-timestamp", MQ_, "        redelivery_time = Instant.from_seconds(now.to_seconds() + self._redelivery_delay)", "        delivered_at = msg.last_delivered_at or now\n        redelivery_time = delivered_at + self._redelivery_delay", "C07-5"),
+    ("mutex-polls-at-zero-delay", "happysimulator/components/sync/mutex.py", "        while not acquired.is_resolved:\n            yield acquired\n", "        while not acquired.is_resolved:\n            yield 0.0\n", "C07-3"),
+]
+REFACTORS = [
+    ("gc-pause-inlined", GC_, "            pause = self._do_collect()\n            yield pause\n", "            yield self._do_collect()\n"),
+    ("delivery-clock-read-hoisted-after-latency", MQ_, "        delivery_event = Event(\n            time=self._clock.now if self._clock else Instant.Epoch,\n            event_type=\"message_delivery\",", "        delivered_at = self._clock.now if self._clock else Instant.Epoch\n        delivery_event = Event(\n            time=delivered_at,\n            event_type=\"message_delivery\","),
+]
